@@ -245,6 +245,22 @@ def run_wrap_case(ctx, d):
         if ok:
             pred_equal(ctx, f"whitebox-{name}-equal-native", e, want, dict(d, method=name))
 
+    # repeated gradients through ONE wrapper on the SAME tf.Tensor object, un-batched (added after a seeded change was
+    # missed): every call must return the native gradient again (nothing accumulated / cached between calls)
+    xtf_same = tf.constant(x)
+    ytf_same = tf.constant(y)
+
+    def repeated():
+        sal = Saliency(wr, batch_size=None, reducer=None)
+        outs = [sal(xtf_same, ytf_same).numpy() for _ in range(3)]
+        gin = GradientInput(wr, batch_size=None, reducer=None)(xtf_same, ytf_same).numpy()
+        return outs, gin
+    ok, r = ctx.impl_call(dict(d, method="repeated-calls"), repeated)
+    if ok:
+        for i_, o_ in enumerate(r[0]):
+            pred_equal(ctx, "whitebox-repeated-call-equal-native", o_, np.abs(g_cl), dict(d, method="Saliency", call=i_))
+        pred_equal(ctx, "whitebox-repeated-call-equal-native", r[1], x * g_cl, dict(d, method="GradientInput", call=3))
+
     @tf.custom_gradient
     def bridge(z):                       # independent bridge written by the harness
         zt = torch.tensor(np.ascontiguousarray(z.numpy().transpose(0, 3, 1, 2)) if needs_cf else z.numpy(),
